@@ -241,7 +241,7 @@ def run_space(ctx, pid, mode, depth, values, thorough, engine_note, clauses_doc)
 
 def check(ctx):
     T = ctx.thorough
-    return run_space(ctx, "C01", "val", 5 if T else 4, (1, 2, 3), T,
+    return run_space(ctx, "C01", "val", 6 if T else 5, (1, 2, 3), T,
                      "synchronous (loop-less) pipelines; elements emitted without metadata",
                      "exception, value, sibling-order")
 
